@@ -292,26 +292,54 @@ func (ex *Exec) returnStmt(st *State, s *ast.ReturnStmt) {
 		// adopt declared result types (e.g. returning *T as an interface)
 		for i := range vals {
 			if i < sig.Results().Len() {
-				vals[i].Go = convGo(vals[i].Go, substType(sig.Results().At(i).Type(), st.frame.tsub))
+				vals[i] = ex.convTo(vals[i], substType(sig.Results().At(i).Type(), st.frame.tsub))
 			}
 		}
 		ex.doReturn(st, vals)
 	})
 }
 
-// convGo keeps the more precise dynamic Go type when a pointer is converted to an interface.
+// convTo converts a value to a destination type: interface destinations take references as they
+// are and box every other value (structs by value, ints ...) with an injective function.
+func (ex *Exec) convTo(v Val, to types.Type) Val {
+	if to == nil {
+		return v
+	}
+	if _, isIface := types.Unalias(to).Underlying().(*types.Interface); isIface {
+		if _, isTP := types.Unalias(to).(*types.TypeParam); isTP {
+			v.Go = to
+			return v
+		}
+		if v.S.Kind == KRef {
+			return Val{T: v.T, S: sRef, Go: to}
+		}
+		return Val{T: ex.box(v), S: sRef, Go: to}
+	}
+	ts := ex.w.sortOf(to)
+	if v.T == "nil" && ts.Kind != KRef {
+		return Val{T: ex.w.zero(ts), S: ts, Go: to}
+	}
+	if ts.Name == v.S.Name {
+		v.Go = to
+		v.S = ts
+	}
+	return v
+}
+
+func (ex *Exec) box(v Val) string {
+	fn := sym("box_" + strings.Trim(v.S.Name, "|"))
+	if !ex.w.declared[fn] {
+		ex.w.declFun(fn, []*Sort{v.S}, sRef)
+		un := sym("unbox_" + strings.Trim(v.S.Name, "|"))
+		ex.w.declFun(un, []*Sort{sRef}, v.S)
+		ex.w.axioms = append(ex.w.axioms, fmt.Sprintf("(forall ((x %s)) (! (and (not (= (%s x) nil)) (= (%s (%s x)) x)) :pattern ((%s x))))", v.S.Name, fn, un, fn, fn))
+	}
+	return sApp(fn, v.T)
+}
+
 func convGo(from, to types.Type) types.Type {
 	if to == nil {
 		return from
-	}
-	if from != nil {
-		if _, isIface := types.Unalias(to).Underlying().(*types.Interface); isIface {
-			if _, fromIface := types.Unalias(from).Underlying().(*types.Interface); !fromIface {
-				if b, ok := from.(*types.Basic); !ok || b.Kind() != types.UntypedNil {
-					return from
-				}
-			}
-		}
 	}
 	return to
 }
@@ -925,8 +953,10 @@ func (ex *Exec) loop(st *State, lp *loopParts, k func(*State)) {
 	fr := st.frame
 	ord := ex.loopOrdinal(fr, lp.stmt)
 	var spec *LoopSpec
-	if fr.fi != nil && fr.fi.Spec != nil && fr.closure == nil {
+	if fr.fi != nil && fr.fi == ex.top && fr.fi.Spec != nil && fr.closure == nil {
 		spec = fr.fi.Spec.Loops[ord]
+	} else if fr.fi != nil && fr.closure == nil && ex.top.Spec != nil && ex.top.Spec.InLoops != nil {
+		spec = ex.top.Spec.InLoops[fmt.Sprintf("%s.%d", fr.fi.Decl.Name.Name, ord)]
 	}
 	if spec == nil {
 		spec = &LoopSpec{}
